@@ -146,8 +146,11 @@ class TaskLoader:
             include_code = file.read()
         scope: Dict[str, Any] = {}
         try:
+            # N.B. The one dictionary is the included file's global namespace,
+            # so that the functions and classes it defines can refer to the
+            # file's other symbols (and its imports).
             # pylint: disable=exec-used
-            exec(include_code, {}, scope)
+            exec(include_code, scope)
         except SyntaxError as ex:
             syntax_err = TaskSyntaxError()
             syntax_err.add_file_context(
@@ -171,7 +174,13 @@ class TaskLoader:
             raise run_err from ex
 
         # 6. Update the current scope with the new symbols.
-        self._curr_exec_scope.update(scope)
+        self._curr_exec_scope.update(
+            {
+                name: value
+                for name, value in scope.items()
+                if name != "__builtins__"  # Added by `exec()`
+            }
+        )
 
         # 7. Update the cache.
         self._curr_exec_scope[str(include_path)] = scope
